@@ -26,6 +26,7 @@ class Ctx:
         if not getattr(self.t, "wires_expanded", False):
             self.expand_wires()
             self.t.wires_expanded = True
+        self.expand_array_selects()
         self.alias_wires()
         self.groups, self.tir = {}, {}
         for d in self.t.drivers:
@@ -70,6 +71,49 @@ class Ctx:
             if not changed:
                 return
             self.t.drivers[:] = out
+
+    def expand_array_selects(self):
+        """x.eq(Array(items)[w]) where `items` is a Python list filled by exactly one unconditional append per iteration of
+        one loop: that is one driver per iteration, `x.eq(item_i)` under `w == i`."""
+        if getattr(self.t, "arrays_expanded", False):
+            return
+        self.t.arrays_expanded = True
+        out = []
+        for d_ in self.t.drivers:
+            v = d_.value
+            try:
+                vn = ir.norm(v, self.nctx)
+            except Exception:
+                out.append(d_)
+                continue
+            ok = vn[0] == 'sub' and vn[1][0] == 'call' and vn[1][1] == ('name', 'Array') and len(vn[1][2]) == 1 and \
+                vn[1][2][0][0] == 'listacc' and vn[2][0] != 'slice'
+            la = self.t.lists.get(vn[1][2][0][1]) if ok else None
+            if la is None or len(la.items) != 1:
+                out.append(d_)
+                continue
+            expr, igen, ln = la.items[0]
+            extra = igen[len(la.home):]
+            loops = [fr for fr in extra if fr[0] == 'for']
+            if len(extra) != 1 or len(loops) != 1 or self.t.loops[loops[0][1]].reversed:
+                out.append(d_)
+                continue
+            L = loops[0][1]
+            lp = self.t.loops[L]
+            # the position in the list is the iteration number: enumerate index / range(0, n) index
+            if not (lp.kind == 'enum' or (lp.kind == 'range' and ir.norm(lp.bounds[0], self.nctx) == ('const', 0)) or lp.kind in ('seq', 'gen')):
+                out.append(d_)
+                continue
+            if lp.kind in ('seq', 'gen'):
+                out.append(d_)                          # no index variable to compare with: left opaque
+                continue
+            cond = ('cmp', '==', vn[2], ('idx', L))
+            # `if items:` around the statement only says that some iteration ran -- true in every iteration's own view
+            own = vn[1][2][0]
+            kept = tuple(fr for fr in d_.gen if not (fr[0] == 'pyif' and fr[2] and ir.norm(fr[1], self.nctx) == own))
+            gen = kept + tuple(fr for fr in extra if fr not in kept)
+            out.append(dsl.Driver(d_.domain, d_.target, expr, d_.dsl + (('if', cond),), gen, d_.order, d_.lineno, d_.seqno))
+        self.t.drivers[:] = out
 
     def alias_wires(self):
         """A local combinational signal with exactly one, unconditional, whole-signal driver is another name for the value
@@ -434,6 +478,14 @@ def order_dependent(c, drivers):
                     exprs.append(unpin(c.norm(fr[1])))
             uses = any(L in _loops_of(c, e) for e in exprs)
             excl = any(fr[0] == 'case' and any(L in _loops_of(c, c.norm(p)) for p in fr[2]) for fr in d.dsl)
+            # `with m.If(E == <index of this iteration>)` with E the same in every iteration: at most one iteration is active
+            for fr in d.dsl:
+                if fr[0] == 'if':
+                    cn = c.norm(fr[1])
+                    if cn[0] == 'cmp' and cn[1] == '==' and cn[3] == ('const', 0) and cn[2][0] == 'lin':
+                        terms = dict(cn[2][2])
+                        if terms.get(('idx', L)) in (1, -1) and all(L not in _loops_of(c, t_) for t_ in terms if t_ != ('idx', L)):
+                            excl = True
             if uses and not excl:
                 return (f"driver at line {d.lineno} is replicated by loop {ir.show(c.t.loops[L].iter)} that its target does not "
                         "depend on, with an iteration-dependent value or guard and no exclusive Case: emission order matters")
